@@ -333,6 +333,7 @@ const c48None = math.MinInt64
 // root-cause signature of the finding described in sensitivity/C48.md
 const c48SigLowerMint = "agent-lower-mint-checkpoint-orphans-samples"
 const c48SigDupRef = "agent-duplicate-ref-checkpoint-orphans-samples"
+const c48SigDupRefExemplar = "agent-duplicate-ref-exemplar-segment-not-tracked"
 
 type c48Series struct {
 	lo, hi   int64 // see runC48
@@ -539,6 +540,12 @@ func runAgentHistory(c c48Case, r *ev.Rec, st *c48Stats) error {
 					// The duplicate's series record is dropped by segment number while
 					// wlog.Checkpoint keeps its samples with t >= mint.
 					return ev.FailSig(c48SigDupRef, "%s; the ref was handed out for %s, which still has a series record under another ref", msg, k)
+				}
+				if k, known := apiRefs[it.Ref]; known && it.Kind == "exemplar" && !it.InCP && restarts > 0 && seriesOf[k] > 0 {
+					// Root cause: replay ignores exemplar records, so the "last segment" kept for a
+					// duplicate ref does not cover a segment that holds only exemplars of that ref;
+					// the next checkpoint drops the ref's series record and the exemplar stays.
+					return ev.FailSig(c48SigDupRefExemplar, "%s; the ref was handed out for %s, which still has a series record under another ref", msg, k)
 				}
 				if it.InCP && !c.InMem && lowerMint && it.T < maxMint {
 					// Root cause: a truncation with a lower mint than an earlier one. The series
